@@ -4,6 +4,7 @@ in the model coq/Flow/Scheduler.v, plus the trace monitor evaluated on every obs
 import json
 import os
 import re
+from concurrent.futures import ThreadPoolExecutor
 
 import vp
 
@@ -72,7 +73,7 @@ def main():
         "the observable of a trigger is (duty, definition set, deadline passed to the delay function); the harness delay function returns at once, so 'not before its time' is: the tick is at/after the slot start and the deadline is slot start + the type's offset",
     ]
     R.proofs()
-    n = 6000 if R.thorough else 700
+    n = 5000 if R.thorough else 700
     rc, out, od = vp.go_harness("scheduler", env_extra={"VERIF_N": n})
     if rc != 0:
         R.broke("correspondence:harness scheduler failed to run", out[-3000:])
@@ -107,10 +108,13 @@ def main():
     R.add_samples([{"script": h["script"], "labels": h["labels"][:12]} for h in hs if h.get("nontrivial")][:2])
     byid = {h["id"]: h for h in hs}
     nwf = 0
-    for shard_i, shard in enumerate(vp.chunks(hs, 1000)):
-        rc, out = vp.coq_eval("C15_%d" % shard_i, cases_v(shard))
+    # Parsing the case terms dominates (about 0.08 s per history); 100 histories per file, files in parallel.
+    shards = list(enumerate(vp.chunks(hs, 100)))
+    with ThreadPoolExecutor(max_workers=max(2, min(12, vp.NPROC - 2))) as ex:
+        results = list(ex.map(lambda a: vp.coq_eval("C15_%d" % a[0], cases_v(a[1])), shards))
+    for (shard_i, shard), (rc, out) in zip(shards, results):
         if rc != 0:
-            R.broke("correspondence:cases_C15 does not compile", out[-3000:])
+            R.broke("correspondence:cases_C15_%d does not compile" % shard_i, out[-3000:])
             continue
         rej = pairs(vp.parse_marked(out, "rejects"))
         hits = pairs(vp.parse_marked(out, "monitor_hits"))
